@@ -71,6 +71,7 @@ bool Action::start() {
   }
 
   auto last_state = state_;
+  auto last_reset_count = reset_count_;
 
   LogDbg("start action %d:%s[%s]", id_, type_.c_str(), label_.c_str());
 
@@ -81,7 +82,8 @@ bool Action::start() {
   if (!is_base_func_invoked_)
     LogWarn("%d:%s[%s] didn't invoke base func", id_, type_.c_str(), label_.c_str());
 
-  if (last_state == state_) {
+  //! onStart() 中可能已经 finish()，其 final 回调又 reset() 了本动作：此时状态又回到 kIdle，不能再置为运行
+  if (last_state == state_ && last_reset_count == reset_count_) {
     if (timer_ev_ != nullptr)
       timer_ev_->enable();
 
@@ -231,6 +233,8 @@ void Action::reset() {
     LogWarn("be careful, action %d:%s[%s] in state:%s",
             id_, type_.c_str(), label_.c_str(), ToString(state_).c_str());
   }
+
+  ++reset_count_;
 
   is_base_func_invoked_ = false;
 
